@@ -184,4 +184,54 @@ def cmpOptBytes : Option (List UInt8) → Option (List UInt8) → Ordering
   | some _, none => .gt
   | some a, some b => cmpBytes a b
 
+/-- `usize::checked_sub` -/
+@[inline] def checkedSub (a b : Nat) : Option Nat := if b ≤ a then some (a - b) else none
+
+/-! ### `slice::binary_search*` — the loop of the standard library this crate is built with (Rust ≥ 1.82:
+    branch-free `base`/`size` halving, no early exit), with a comparison that may itself panic.
+    `Result<usize, usize>` is `Except Nat Nat`.  (lean/Grenad/Model/BinSearch.lean has the same loop over a
+    pure comparison, and Proofs/BinSearchProofs.lean its specification on sorted tables.) -/
+
+def binSearchBaseM {α : Type} (cmp : α → M Ordering) (l : List α) : Nat → Nat → Nat → M Nat
+  | 0, base, _ => pure base
+  | fuel + 1, base, size =>
+    if size > 1 then
+      let half := size / 2
+      let mid := base + half
+      match l[mid]? with
+      | none => pure base
+      | some x => do
+        let c ← cmp x
+        binSearchBaseM cmp l fuel (match c with | .gt => base | _ => mid) (size - half)
+    else pure base
+
+def binSearchByM {α : Type} (cmp : α → M Ordering) (l : List α) : M (Except Nat Nat) :=
+  if l.length = 0 then pure (.error 0) else do
+    let base ← binSearchBaseM cmp l (l.length + 1) 0 l.length
+    match l[base]? with
+    | none => pure (.error base)
+    | some x =>
+      match ← cmp x with
+      | .eq => pure (.ok base)
+      | .lt => pure (.error (base + 1))
+      | .gt => pure (.error base)
+
+/-- `Result<usize, usize>` of the slice searches -/
+abbrev SearchRes := Except Nat Nat
+
+/-- `l.binary_search(&x)` on integers -/
+def binarySearch (l : List Nat) (x : Nat) : Except Nat Nat :=
+  match binSearchByM (fun o => (pure (compare o x) : M Ordering)) l with
+  | .ok r => r
+  | .error _ => .error 0   -- unreachable: the comparison is pure
+
+/-- `l.binary_search_by_key(&key, |e| f(e))` with an ordering `cmp` on keys -/
+def binarySearchByKeyM {α κ : Type} (cmp : κ → κ → Ordering) (l : List α) (key : κ) (f : α → M κ) : M (Except Nat Nat) :=
+  binSearchByM (fun e => do pure (cmp (← f e) key)) l
+
+/-- `.unwrap_or_else(|x| x)` on a search result: "extract Err and Ok" -/
+@[inline] def okOrErr : Except Nat Nat → Nat
+  | .ok i => i
+  | .error i => i
+
 end Grenad.R
